@@ -312,6 +312,56 @@ class TableFlow:
                 seen.add(key)
                 sinks.append({"func": f.short, "where": f.loc(sub), "read": norm_src(sub), "table": need, "origin": st[1], "via": []})
 
+    def _attach_summary(self, callee: FuncInfo) -> List[Tuple[str, str, str]]:
+        """(destination parameter, source parameter, table) for every unconditional `dst.<table> = src.<table>` (possibly copied)
+        among the top-level statements of a helper: what a call of it re-attaches to the graph it is given."""
+        out = []
+        a = callee.node.args
+        params = {x.arg for x in a.posonlyargs + a.args + a.kwonlyargs}
+        for st in callee.node.body:
+            if not (isinstance(st, ast.Assign) and len(st.targets) == 1 and isinstance(st.targets[0], ast.Attribute)):
+                continue
+            tg, v = st.targets[0], st.value
+            if isinstance(v, ast.Call) and dotted(v.func) in ("deepcopy", "copy", "dict") and v.args:
+                v = v.args[0]
+            if tg.attr in self.TABLES and isinstance(tg.value, ast.Name) and tg.value.id in params \
+                    and isinstance(v, ast.Attribute) and v.attr == tg.attr and isinstance(v.value, ast.Name) and v.value.id in params:
+                out.append((tg.value.id, v.value.id, tg.attr))
+        return out
+
+    def _apply_attach_summary(self, f: FuncInfo, e: ast.AST, env, sinks) -> None:
+        if not isinstance(e, ast.Call):
+            return
+        ctx = self.ctx
+        q = ctx.T.resolve_callee(f, e, ctx.env_at(f, e))
+        if q is None and isinstance(e.func, ast.Attribute) and self.is_graph(ctx.type_of(f, e.func.value)):
+            q = f"{self.GQ}.{e.func.attr}"
+        if q not in ctx.P.funcs:
+            return
+        callee = ctx.P.funcs[q]
+        summ = self._attach_summary(callee)
+        if not summ:
+            return
+        is_method = callee.cls is not None and isinstance(e.func, ast.Attribute)
+        cparams = [x.arg for x in callee.node.args.posonlyargs + callee.node.args.args + callee.node.args.kwonlyargs]
+
+        def actual(pn: str) -> Optional[ast.AST]:
+            if is_method and cparams and pn == cparams[0]:
+                return e.func.value  # type: ignore[union-attr]
+            return arg_for_param(callee.node, e, pn, skip_self=is_method)
+
+        for dst, src, table in summ:
+            d_e, s_e = actual(dst), actual(src)
+            if not (isinstance(d_e, ast.Name) and isinstance(env.get(d_e.id), tuple)) or s_e is None:
+                continue
+            sst = self.ev(f, s_e, env, sinks)
+            if sst is None and self.is_graph(ctx.type_of(f, s_e)):
+                sst = self.POP
+            cur: State = env[d_e.id]  # type: ignore[assignment]
+            if sst is not None and table in sst[0]:
+                nt = cur[0] | {table}
+                env[d_e.id] = (nt, cur[1] if nt != self.TABLES else None)
+
     def _transfer(self, f: FuncInfo, s: Optional[ast.AST], env, sinks) -> None:
         if s is None:
             return
@@ -321,6 +371,7 @@ class TableFlow:
             for c in own_walk(s.value):
                 if isinstance(c, ast.Call) and c is not s.value:
                     self.ev(f, c, env, sinks)
+            self._apply_attach_summary(f, s.value, env, sinks)
             return
         if isinstance(s, (ast.Assign, ast.AnnAssign)):
             value = s.value
@@ -484,7 +535,19 @@ def gt_pop(ctx: Ctx) -> RuleResult:
     # the tag table holds a LIST of tags per node (membership on a bare string would be substring matching)
     for w in written.get("tag", []):
         v = w.value
-        okl = isinstance(v, (ast.List, ast.ListComp)) or (isinstance(v, ast.Call) and dotted(v.func) == "list")
+
+        def _is_list(e: ast.AST) -> Optional[bool]:
+            if isinstance(e, (ast.List, ast.ListComp)) or (isinstance(e, ast.Call) and dotted(e.func) in ("list", "sorted")):
+                return True
+            if isinstance(e, ast.IfExp):
+                a_, b_ = _is_list(e.body), _is_list(e.orelse)
+                return False if False in (a_, b_) else (True if a_ and b_ else None)
+            if isinstance(e, (ast.Attribute, ast.Name, ast.Constant, ast.JoinedStr)):
+                return False  # the node's tag itself (a str, or whatever the user passed)
+            return None
+        okl = _is_list(v)
+        if okl is None:
+            raise Undecided(f"from_exec_nodes: form of the tag table entry not recognised: {norm_src(v)}")
         r.ob(okl, {"tag table entry": norm_src(v)})
         if not okl:
             r.violate("DiGraphEx.from_exec_nodes: a node's tags are stored as a bare value, not as a list of tags", fe.loc(w),
@@ -569,6 +632,14 @@ def gt_formula(ctx: Ctx) -> RuleResult:
             tg = n.targets[0] if isinstance(n, ast.Assign) else n.target
             if isinstance(tg, ast.Subscript) and table_of(tg.value) is not None:
                 writes.append((n, table_of(tg.value), tg.slice))
+    # T.update({key: value for key in it}): one write per key, all values computed before any of them is stored
+    for n in iter_own_nodes(fn):
+        if isinstance(n, ast.Call) and isinstance(n.func, ast.Attribute) and n.func.attr == "update" and table_of(n.func.value) is not None \
+                and len(n.args) == 1 and isinstance(n.args[0], ast.DictComp) and len(n.args[0].generators) == 1:
+            dc = n.args[0]
+            pseudo = ast.copy_location(ast.Assign(targets=[ast.Subscript(value=n.func.value, slice=dc.key, ctx=ast.Store())], value=dc.value), n)
+            ast.fix_missing_locations(pseudo)
+            writes.append((pseudo, table_of(n.func.value), dc.key))
     r.require(bool(writes), "assign_compound_priority: no write into a priority table found")
     # values that carry a table read (one level of local assignment)
     carries: Dict[str, List[Tuple[str, ast.AST]]] = {}
@@ -767,7 +838,8 @@ def gt_cycle(ctx: Ctx) -> RuleResult:
     for n in iter_own_nodes(fe.node):
         if isinstance(n, ast.Try):
             calls = [x for s in n.body for x in ast.walk(s) if isinstance(x, ast.Call) and (dotted(x.func) or "").endswith("find_cycle")]
-            raises = [s for s in n.body if isinstance(s, ast.Raise)]
+            # the rejection is the last statement of the try body, or its else arm (run exactly when find_cycle returned)
+            raises = [s for s in n.body if isinstance(s, ast.Raise)] + [s for s in n.orelse if isinstance(s, ast.Raise)]
             handlers = [h for h in n.handlers if h.type is not None and "NoCycle" in ast.unparse(h.type)]
             if calls:
                 found = True
@@ -1365,6 +1437,52 @@ def gt_presence(ctx: Ctx) -> RuleResult:
     return r
 
 
+RES_BASE = ("get_multiple_nodes_aliases", "alias_to_ids")
+
+
+def _resolver_funcs(ctx: Ctx) -> Set[str]:
+    """Qualnames of the alias resolvers and of every package function that only returns what a resolver returns for one of its
+    own parameters (wrappers such as 'None stays None, anything else is resolved')."""
+    def build():
+        out = {f.qualname for f in ctx.funcs() if f.name in RES_BASE and f.cls is not None}
+        changed = True
+        while changed:
+            changed = False
+            for f in ctx.funcs():
+                if f.qualname in out:
+                    continue
+                a = f.node.args
+                params = {x.arg for x in a.posonlyargs + a.args + a.kwonlyargs}
+                rets = [n for n in iter_own_nodes(f.node) if isinstance(n, ast.Return) and n.value is not None
+                        and not (isinstance(n.value, ast.Constant) and n.value.value is None)]
+                if not rets:
+                    continue
+                ok = True
+                for rt in rets:
+                    v = rt.value
+                    if not (isinstance(v, ast.Call) and v.args and isinstance(v.args[0], ast.Name) and v.args[0].id in params):
+                        ok = False
+                        break
+                    q = next((q for c, q in ctx.calls_in(f) if c is v), None)
+                    if q not in out:
+                        ok = False
+                        break
+                if ok:
+                    out.add(f.qualname)
+                    changed = True
+        return out
+    return ctx.memo("gt.resolver_funcs", build)
+
+
+def _is_resolution(ctx: Ctx, f: FuncInfo, call: ast.AST) -> bool:
+    if not (isinstance(call, ast.Call) and call.args):
+        return False
+    if isinstance(call.func, ast.Attribute) and call.func.attr in RES_BASE:
+        return True
+    q = next((q for c, q in ctx.calls_in(f) if c is call), None)
+    return q in _resolver_funcs(ctx)
+
+
 def gt_aliasnorm(ctx: Ctx) -> RuleResult:
     """Every user-supplied selection list (aliases: node, tag or id) is resolved to ids before it reaches make_subgraph."""
     from .sib import PARALLEL
@@ -1390,8 +1508,7 @@ def gt_aliasnorm(ctx: Ctx) -> RuleResult:
                 # the argument must have been (re)assigned from the alias resolver in this function, or come from a field
                 # that the object resolves in its own initialiser
                 norm = [x for x in iter_own_nodes(f.node) if isinstance(x, ast.Assign) and dotted(x.targets[0]) == d
-                        and isinstance(x.value, ast.Call) and isinstance(x.value.func, ast.Attribute)
-                        and x.value.func.attr in ("get_multiple_nodes_aliases", "alias_to_ids")]
+                        and _is_resolution(ctx, f, x.value)]
                 internal = [x for x in iter_own_nodes(f.node) if isinstance(x, ast.Assign) and dotted(x.targets[0]) == d
                             and isinstance(x.value, ast.Attribute) and x.value.attr in ("setup_nodes", "debug_nodes", "root_nodes", "leaf_nodes")]
                 n += 1
@@ -1411,7 +1528,7 @@ def gt_aliasnorm(ctx: Ctx) -> RuleResult:
             continue
         for x in iter_own_nodes(f.node):
             if isinstance(x, ast.Assign) and isinstance(x.targets[0], ast.Attribute) and dotted(x.targets[0].value) == "self" \
-                    and isinstance(x.value, ast.Call) and isinstance(x.value.func, ast.Attribute) and x.value.func.attr in RES:
+                    and _is_resolution(ctx, f, x.value):
                 for ci in ctx.P.subclasses(f.cls.qualname):
                     resolved_fields.setdefault(ci.qualname, set()).add(x.targets[0].attr)
     for f in ctx.funcs():
@@ -1419,7 +1536,7 @@ def gt_aliasnorm(ctx: Ctx) -> RuleResult:
             continue
         flds = resolved_fields[f.cls.qualname]
         for call, q in ctx.calls_in(f):
-            if not (isinstance(call.func, ast.Attribute) and call.func.attr in RES and call.args):
+            if not _is_resolution(ctx, f, call):
                 continue
             a = call.args[0]
             src = None
@@ -1450,7 +1567,7 @@ def gt_aliasnorm(ctx: Ctx) -> RuleResult:
             fparams = {x.arg for x in a.posonlyargs + a.args + a.kwonlyargs}
             for call, q in ctx.calls_in(f):
                 sinks: List[ast.AST] = []
-                if isinstance(call.func, ast.Attribute) and call.func.attr in RES and call.args:
+                if _is_resolution(ctx, f, call) and f.qualname not in _resolver_funcs(ctx):
                     sinks.append(call.args[0])
                 elif q is not None and q in ctx.P.funcs:
                     for (q2, p2) in list(resolving):
@@ -1486,8 +1603,7 @@ def gt_aliasnorm(ctx: Ctx) -> RuleResult:
         if f.module.name.endswith("_twzsa_control"):
             continue
         for x in iter_own_nodes(f.node):
-            if isinstance(x, ast.Assign) and isinstance(x.value, ast.Call) and isinstance(x.value.func, ast.Attribute) \
-                    and x.value.func.attr in RES and x.value.args:
+            if isinstance(x, ast.Assign) and _is_resolution(ctx, f, x.value):
                 t = dotted(x.targets[0])
                 a0 = dotted(x.value.args[0])
                 if t is None or a0 is None:
